@@ -1,6 +1,8 @@
 #!/bin/bash
 # usage: tools/soak.sh "<props>" "<seeds>"  -- runs quick checks under several VERIF_SEED values, prints non-OK results
 cd "$(dirname "$0")/.." || exit 2
+# under `vp run --with-repo` the checks run against the snapshot of /repo, so that edits to /repo do not disturb a soak
+if [ -n "$VP_RUN_REPO" ]; then export VERIF_REPO="$VP_RUN_REPO"; fi
 ./setup.sh >/dev/null 2>&1
 props=${1:-"C01 C04 C05 C09 C10 C11 C12 C13 C19 C20"}
 seeds=${2:-"1 2 3 4 5"}
